@@ -80,8 +80,8 @@ def run(ctx):
         return
     s = [ca.SX.sym(n, k) for n, k in (("F_max", 1), ("l", 1), ("Cm", 1), ("Ct", 1), ("T", 1), ("M", 3))]
     ev = Ev("alloc", s, list(f(*s)))
-    N = 30000 if ctx.quick else 600000
-    for tag, gen in (("random", gen_random), ("directed", gen_directed)):
+    N = 30000 if ctx.quick else 500000
+    for tag, gen in (("random", gen_random), ("directed", gen_directed)) * (1 if ctx.quick else 5):
         Fmax, l, Cm, Ct, T, M = gen(rng, N)
         (om, Fp, Fm, Ft, Ms), pr = ev(Fmax, l, Cm, Ct, T, M)
         ctx.cells_from("predicates", pr)
